@@ -31,13 +31,19 @@ impl Drop for Payload {
 }
 
 struct EventCell { st: StdMutex<(bool, Vec<std::task::Waker>)> }
-struct EventFut { ctx: Arc<Ctx>, e: usize }
+struct EventFut { ctx: Arc<Ctx>, e: usize, sig: Option<usize> }
 impl Future for EventFut {
     type Output = ();
     fn poll(self: Pin<&mut Self>, cx: &mut Context) -> Poll<()> {
         rt::thread::yield_now();
         let mut st = self.ctx.events[self.e].st.lock().unwrap();
-        if st.0 { Poll::Ready(()) } else { st.1.push(cx.waker().clone()); Poll::Pending }
+        if st.0 { Poll::Ready(()) } else {
+            st.1.push(cx.waker().clone());
+            drop(st);
+            // tell whoever scripted it that this operation is now suspended with its waker registered
+            if let Some(e2) = self.sig { let ws = { let mut s2 = self.ctx.events[e2].st.lock().unwrap(); s2.0 = true; std::mem::take(&mut s2.1) }; for w in ws { w.wake(); } }
+            Poll::Pending
+        }
     }
 }
 
@@ -178,7 +184,7 @@ fn run_body(ctx: &Arc<Ctx>, oid: usize, body: &Vec<Prim>, p: &mut Payload, calle
     for prim in body {
         match prim {
             Prim::Touch => ctx.touch(oid, p),
-            Prim::AwaitEv(_) => { /* only meaningful in future bodies */ }
+            Prim::AwaitEv(_) | Prim::AwaitEvSig(_, _) => { /* only meaningful in future bodies */ }
             Prim::Gate(g) => { let gt = &ctx.gates[*g]; let mut o = gt.open.lock().unwrap(); while !*o { o = gt.cv.wait(o).unwrap(); } }
             Prim::Panic => { p.mon.panicked.store(true, SeqCst); ctx.panics_started.fetch_add(1, SeqCst); panic!("INTENDED panic in operation {}", oid); }
             Prim::Signal(e) => { exec_op(ctx, &Op::Fire(*e), caller, true, &mut Local::default()); }
@@ -195,7 +201,8 @@ fn run_body_async<'a>(ctx: Arc<Ctx>, oid: usize, body: Vec<Prim>, p: &'a mut Pay
         for prim in body.iter() {
             match prim {
                 Prim::Touch => ctx.touch(oid, p),
-                Prim::AwaitEv(e) => { EventFut { ctx: ctx.clone(), e: *e }.await; }
+                Prim::AwaitEv(e) => { EventFut { ctx: ctx.clone(), e: *e, sig: None }.await; }
+                Prim::AwaitEvSig(e, e2) => { EventFut { ctx: ctx.clone(), e: *e, sig: Some(*e2) }.await; }
                 Prim::Gate(g) => { let gt = &ctx.gates[*g]; let mut o = gt.open.lock().unwrap(); while !*o { o = gt.cv.wait(o).unwrap(); } }
                 Prim::Panic => { p.mon.panicked.store(true, SeqCst); ctx.panics_started.fetch_add(1, SeqCst); panic!("INTENDED panic in operation {}", oid); }
                 Prim::Signal(e) => { exec_op(&ctx, &Op::Fire(*e), caller, true, &mut Local::default()); }
@@ -252,7 +259,7 @@ pub fn exec_op(ctx: &Arc<Ctx>, op: &Op, caller: usize, nested: bool, local: &mut
         Op::DropObj(q) => { desync::verif::log("api", "DROPOBJ", *q, String::new()); let o = ctx.objs[*q].lock().unwrap().take(); drop(o); return; }
         Op::Resume => { if let Some(r) = local.resumer.take() { let t = ctx.tick(); if let Some(o) = local.susp_op.take() { ctx.with_op(o, |x| x.end = t); } r.resume(); } return; }
         Op::DropResumer => { if let Some(r) = local.resumer.take() { let t = ctx.tick(); if let Some(o) = local.susp_op.take() { ctx.with_op(o, |x| x.end = t); } drop(r); } return; }
-        Op::WaitEv(e) => { block_on(EventFut { ctx: ctx.clone(), e: *e }, None); return; }
+        Op::WaitEv(e) => { block_on(EventFut { ctx: ctx.clone(), e: *e, sig: None }, None); return; }
         Op::Noise(c) => { let t = { let g = ctx.threads.lock().unwrap(); g.get(*c).cloned().flatten() }; if let Some(t) = t { t.unpark(); } return; }
         Op::AwaitUnwind => {
             // every started panic has been caught either by a caller's top level or at the top of a pool thread
@@ -283,8 +290,8 @@ pub fn exec_op(ctx: &Arc<Ctx>, op: &Op, caller: usize, nested: bool, local: &mut
                     if *n > 0 && got >= *n { break; }
                     // every other read is preceded by a probe with a throw-away waker (select!/now_or_never style): the stream must
                     // then wake the waker of the LATEST poll
-                    let probe = if got % 2 == 0 && PROBE.load(SeqCst) { let w = futures::task::noop_waker(); let mut cx = Context::from_waker(&w); match Pin::new(&mut *s).poll_next(&mut cx) { Poll::Ready(v) => Some(v), Poll::Pending => None } } else { None };
-                    match (match probe { Some(v) => v, None => block_on(s.next(), None).unwrap() }) {
+                    let probe = if got % 2 == 0 && PROBE.load(SeqCst) { desync::verif::log("api", "PROBE", *k, String::new()); let w = futures::task::noop_waker(); let mut cx = Context::from_waker(&w); match Pin::new(&mut *s).poll_next(&mut cx) { Poll::Ready(v) => Some(v), Poll::Pending => None } } else { None };
+                    match (match probe { Some(v) => v, None => { desync::verif::log("api", "CONSUME", *k, String::new()); block_on(s.next(), None).unwrap() } }) {
                         Some(v) => { desync::verif::log("api", "CONSUMED", v as usize, String::new()); ctx.streams[*k].received.lock().unwrap().push(v); got += 1; }
                         None => { desync::verif::log("api", "CONSUMEDEND", *k, String::new()); ctx.streams[*k].ended_seen.store(true, SeqCst); break; }
                     }
@@ -370,7 +377,7 @@ pub fn exec_op(ctx: &Arc<Ctx>, op: &Op, caller: usize, nested: bool, local: &mut
             struct Done(Arc<Ctx>);
             impl Drop for Done { fn drop(&mut self) { self.0.done_pending(); } }
             let done = Done(ctx.clone());
-            let ev = EventFut { ctx: ctx.clone(), e: *e };
+            let ev = EventFut { ctx: ctx.clone(), e: *e, sig: None };
             let fut = obj.after(ev, move |p, _| { let _d = done; run_body(&c2, oid, &vec![Prim::Touch], p, caller); oid });
             finish_future(ctx, oid, fut.boxed(), mode, "C07");
         }
